@@ -121,6 +121,11 @@ Allowed(st, ev) ==
             /\ CASE ev.out = "ok" -> f.ran /\ f.ret = "ok" /\ ~st.unw /\ ev.valok /\ HookClosed(st, f)
                  [] ev.out = "abort" -> st.unw \/ (f.poison /\ ~st.fits /\ ~f.ran)
                  [] OTHER -> FALSE
+    [] ev.e = "caught" ->
+         \* the application catches, in a callback body, the abort of an invocation it made there:
+         \* that invocation's crossing is closed, the callback goes on
+         /\ st.unw /\ Len(st.stack) > 0
+         /\ LET f == Top(st) IN f.k = "cb" /\ f.ran /\ f.ret = "none" /\ ev.node = f.node
     [] ev.e = "timing" ->
          \* exactly one record per completed crossing, inner before outer
          ~HooksOn(st) \/ (Len(st.stack) = 0 /\ \A s \in DOMAIN st.closed : ev.records[s] = st.closed[s])
@@ -157,6 +162,7 @@ Apply(st, ev) ==
          LET s2 == [st EXCEPT !.stack = Pop(st)] IN
          IF Len(s2.stack) = 0 THEN [s2 EXCEPT !.unw = FALSE]
          ELSE IF ev.out = "abort" THEN [s2 EXCEPT !.unw = TRUE] ELSE s2
+    [] ev.e = "caught" -> [st EXCEPT !.unw = FALSE]
     [] ev.e = "timing" -> [st EXCEPT !.closed = [s \in DOMAIN @ |-> <<>>]]
     [] OTHER -> st
 
